@@ -39,4 +39,11 @@ MUTANTS = [
             if filename.startswith(path):
                 return False, path
 ''', props=['C02', 'C19']),
+ dict(id='C04-count-le', file='src/deep/api/tracepoint/trigger.py', old='self.fire_count <= self.__stats.fire_count', new='self.fire_count < self.__stats.fire_count', props=['C04']),
+ dict(id='C04-no-last-fire', file='src/deep/api/tracepoint/tracepoint_config.py', old='        self._last_fire = ts\n', new='        pass\n', props=['C04']),
+ dict(id='C04-period-us', file='src/deep/api/tracepoint/trigger.py', old='return self.fire_period * 1_000_000', new='return self.fire_period * 1_000', props=['C04']),
+ dict(id='C04-parse-default-unlimited', file='src/deep/api/tracepoint/trigger.py', old="        return self.__get_int(FIRE_COUNT, 1)", new="        return self.__get_int(FIRE_COUNT, -1)", props=['C04', 'C11']),
+ dict(id='C04-record-rejected', file='src/deep/processor/context/action_context.py', old="        if self.has_triggered():\n", new="        if True:\n", props=['C10', 'C04']),
+ dict(id='C04-window-ignored', file='src/deep/api/tracepoint/tracepoint_config.py', old="        return self._start <= ts <= self._end", new="        return self._start <= ts", props=['C04']),
+ dict(id='C04-boundary-strict', file='src/deep/api/tracepoint/trigger.py', old="if time_since_last < self.__fire_period_ns():", new="if time_since_last <= self.__fire_period_ns() and self.__fire_period_ns() > 0:", props=['C04']),
 ]
